@@ -104,18 +104,23 @@ zix_file_equals(ZixAllocator* const allocator,
     match = true; // Fast path: paths refer to the same file
   } else if (stat_a.st_size == stat_b.st_size) {
     // Slow path: files have equal size, compare contents
-    const uint32_t size   = zix_system_page_size();
-    void* const    page_a = zix_aligned_alloc(allocator, size, size);
-    void* const    page_b = zix_aligned_alloc(allocator, size, size);
+    const uint32_t page   = zix_system_page_size();
+    void* const    page_a = zix_aligned_alloc(allocator, page, page);
+    void* const    page_b = zix_aligned_alloc(allocator, page, page);
 
-    if (page_a && page_b) {
-      match = true;
-      for (ZixSystemCountReturn n = 0; (n = read(fd_a, page_a, size)) > 0;) {
-        if (read(fd_b, page_b, size) != n ||
-            !!memcmp(page_a, page_b, (size_t)n)) {
-          match = false;
-          break;
-        }
+    // Fall back to using small stack buffers if allocation is unavailable
+    char           stack_a[512];
+    char           stack_b[512];
+    const bool     paged = page_a && page_b;
+    void* const    buf_a = paged ? page_a : stack_a;
+    void* const    buf_b = paged ? page_b : stack_b;
+    const uint32_t size  = paged ? page : (uint32_t)sizeof(stack_a);
+
+    match = true;
+    for (ZixSystemCountReturn n = 0; (n = read(fd_a, buf_a, size)) > 0;) {
+      if (read(fd_b, buf_b, size) != n || !!memcmp(buf_a, buf_b, (size_t)n)) {
+        match = false;
+        break;
       }
     }
 
